@@ -4,7 +4,10 @@ import base64
 import hashlib
 import math
 import re
+from fractions import Fraction
 from typing import Any, Optional
+
+from indi.message.checks import NUMBER_RE
 
 
 class BLOB:
@@ -32,76 +35,81 @@ class BLOB:
         return self.size
 
 
-def str_to_num(s: str, fmt: str) -> Any[float, int]:
+_SEXAGESIMAL_FORMAT_RE = re.compile(r"^%(\d*)\.(\d+)m$")
+
+# units of the last rendered field per degree/hour for each %w.fm format
+_SEXAGESIMAL_UNITS = {3: 60, 5: 600, 6: 3600, 8: 36000, 9: 360000}
+
+
+def str_to_num(s: str, fmt: Optional[str] = None) -> Any[float, int]:
+    """Parses any number text INDI allows: integer, decimal or sexagesimal
+    (two or three fields separated by ':', ';' or a blank).  The sign applies
+    to the whole sexagesimal magnitude.  `fmt` does not restrict the notation.
+    """
     if s is None:
         return None
     if not isinstance(s, str):
         s = str(s)
 
-    sexagesimal_match = re.match(r"^%(\d*)\.(\d+)m$", fmt)
-    if sexagesimal_match:
-        fraction_length = int(sexagesimal_match.groups()[1])
-        assert fraction_length in (
-            3,
-            5,
-            6,
-            8,
-            9,
-        ), f"Invalid sexagesimal number format: {fmt}"
+    num_match = NUMBER_RE.match(s)
+    if not num_match:
+        raise ValueError("Cannot convert string to number")
 
-        regexps = {
-            3: r"^(\-?\d+)[:; ](\d{2})$",
-            5: r"^(\-?\d+)[:; ](\d{2}\.\d+)$",
-            6: r"^(\-?\d+)[:; ](\d{2})[:; ](\d{2})$",
-            8: r"^(\-?\d+)[:; ](\d{2})[:; ](\d{2}.\d+)$",
-            9: r"^(\-?\d+)[:; ](\d{2})[:; ](\d{2}.\d+)$",
-        }
+    sign, plain, d2, m2, d3, m3, s3 = num_match.groups()
 
-        num_match = re.match(regexps[fraction_length], s)
-        if not num_match:
-            raise ValueError("Cannot convert string to number")
-        num_match_groups = num_match.groups()
-        wholes = num_match_groups[0]
-        minutes = num_match_groups[1]
-        seconds = num_match_groups[2] if fraction_length in (6, 8, 9) else 0
+    if plain is not None:
+        if "." in plain:
+            return float(sign + plain)
+        return int(sign + plain)
 
-        return float(wholes) + (float(minutes) / 60) + (float(seconds) / 3600)
+    if d2 is not None:
+        total = Fraction(d2) + Fraction(m2) / 60
+    else:
+        total = Fraction(d3) + Fraction(m3) / 60 + Fraction(s3) / 3600
 
-    if "." in s:
-        return float(s)
-
-    return int(s)
+    if sign == "-":
+        total = -total
+    return float(total)
 
 
 def num_to_str(n: Optional[float], fmt: str) -> Optional[str]:
     if n is None:
         return None
 
-    sexagesimal_match = re.match(r"^%(\d*)\.(\d+)m$", fmt)
+    sexagesimal_match = _SEXAGESIMAL_FORMAT_RE.match(fmt)
     if sexagesimal_match:
         fraction_length = int(sexagesimal_match.groups()[1])
-        assert fraction_length in (3, 5, 6, 8, 9)
+        assert (
+            fraction_length in _SEXAGESIMAL_UNITS
+        ), f"Invalid sexagesimal number format: {fmt}"
 
-        w = math.floor(n)
-        m = (n - w) * 60
+        # exact integer arithmetic: the magnitude is rounded once, to the
+        # nearest unit of the last field, and the sign is put in front of it
+        units_per_whole = _SEXAGESIMAL_UNITS[fraction_length]
+        negative = n < 0
+        p, q = Fraction(abs(n)).as_integer_ratio()
+        units = (2 * p * units_per_whole + q) // (2 * q)
+        w, rest = divmod(units, units_per_whole)
+        sign = "-" if negative else ""
 
         if fraction_length == 3:
-            return f"{w}:{m:02.0f}"
+            return f"{sign}{w}:{rest:02d}"
 
         if fraction_length == 5:
-            return f"{w}:{m:04.1f}"
-
-        mf = math.floor(m)
-        s = (m - mf) * 60
-        m = mf
+            m, tenths = divmod(rest, 10)
+            return f"{sign}{w}:{m:02d}.{tenths:d}"
 
         if fraction_length == 6:
-            return f"{w}:{m:02d}:{s:02.0f}"
+            m, sec = divmod(rest, 60)
+            return f"{sign}{w}:{m:02d}:{sec:02d}"
 
         if fraction_length == 8:
-            return f"{w}:{m:02d}:{s:04.1f}"
+            m, tenths = divmod(rest, 600)
+            sec, tenths = divmod(tenths, 10)
+            return f"{sign}{w}:{m:02d}:{sec:02d}.{tenths:d}"
 
-        if fraction_length == 9:
-            return f"{w}:{m:02d}:{s:05.2f}"
+        m, hundredths = divmod(rest, 6000)
+        sec, hundredths = divmod(hundredths, 100)
+        return f"{sign}{w}:{m:02d}:{sec:02d}.{hundredths:02d}"
 
-    return fmt % n
+    return (fmt % n).strip()
